@@ -50,8 +50,20 @@ def question_bytes() -> bytes:
     return out.packets()[0][12:]
 
 
+def scoped_aaaa_response() -> bytes:
+    """A response holding the SRV record of the instance the pending lookup asks for and a link-local AAAA record of its host
+    (the AAAA record is last: its RDLENGTH is at -18, its 16 address octets at the end)."""
+    from zeroconf._dns import DNSAddress
+
+    out = DNSOutgoing(const._FLAGS_QR_RESPONSE | const._FLAGS_AA)
+    out.add_answer_at_time(DNSService('Nobody._http._tcp.local.', const._TYPE_SRV, IN | const._CLASS_UNIQUE, 120, 0, 0, 8080, 'nobody.local.', 0.0), 0)
+    out.add_answer_at_time(DNSAddress('nobody.local.', const._TYPE_AAAA, IN | const._CLASS_UNIQUE, 120, b'\xfe\x80' + b'\x00' * 13 + b'\x01', None, 0.0), 0)
+    return out.packets()[0]
+
+
 # real wire bytes, built once at import time with the unmodified encoder (no stub is active yet)
 CQ, CA, QB = canary_query(), canary_announcement(), question_bytes()
+SA = scoped_aaaa_response()
 
 
 def make(shape: Dict[str, Any]) -> Any:
@@ -86,7 +98,15 @@ def make(shape: Dict[str, Any]) -> Any:
             body: List[bytes] = [qb] if lead else []
             body += [wire.sym_octet(ctx.int(f'octet{i}', 0, 255)) for i in range(P)]
             port = ctx.int('port', 0, 65535)
-            if shape.get('chain'):
+            src: Any = ('10.0.0.9', port)
+            if shape.get('v6_scope') is not None:
+                src = ('fe80::9', port, 0, shape['v6_scope'])  # an IPv6 source: (address, port, flow, scope id of the receiving interface)
+            if shape.get('scoped_aaaa'):
+                # the RDLENGTH of the trailing AAAA record is a solver variable 0..20; the datagram ends after `tail` of the 16
+                # address octets (the decoder reads 16 octets whatever RDLENGTH says, so a truncated copy yields a short address)
+                sa = SA
+                test_pkt = SymPacket([sa[:-18], wire.Tok(0, 1), wire.sym_octet(ctx.int('aaaa_rdlength', 0, 20)), sa[len(sa) - 16: len(sa) - 16 + shape['scoped_aaaa_tail']]])
+            elif shape.get('chain'):
                 from props.c02 import chain_packet
 
                 direction, cells, broken = shape['chain']
@@ -94,7 +114,7 @@ def make(shape: Dict[str, Any]) -> Any:
             else:
                 test_pkt = SymPacket(hdr + body)
             try:
-                proto.datagram_received(test_pkt, ('10.0.0.9', port))  # type: ignore[arg-type]
+                proto.datagram_received(test_pkt, src)  # type: ignore[arg-type]
                 loop.run_ready()
             except Exception as e:
                 ctx.check(False, f'{type(e).__name__} escaped datagram_received into the event loop')
@@ -266,6 +286,12 @@ def obligations(tier: str) -> List[Obligation]:
     for direction, cells, broken in chains:
         shape = {'payload': 0, 'counts': [0, 0, 0, 0], 'flags': 0, 'lead_question': False, 'timing': 'fixed', 'chain': [direction, cells, broken]}
         obs.append(Obligation(f'survive[pointer-chain {direction};cells={cells};broken={broken if broken is not None else "-"}]', make(shape), 'survive-chain', shape, timeout=280 if tier == 'quick' else 1500))
+    for scope, tail in ((3, 16), (3, 15), (3, 0), (0, 15)) if tier == 'quick' else [(sc, tl) for sc in (0, 3) for tl in (0, 1, 4, 15, 16)]:
+        shape = {'payload': 0, 'counts': [0, 0, 0, 0], 'flags': 0, 'lead_question': False, 'timing': 'fixed', 'scoped_aaaa': True, 'scoped_aaaa_tail': tail, 'v6_scope': scope}
+        obs.append(Obligation(f'survive[scoped-aaaa-for-pending-lookup;scope={scope};address-octets={tail}]', make(shape), 'survive-aaaa', shape, timeout=280 if tier == 'quick' else 1500))
+    for name, counts, flags, lead, p in templates[:2]:
+        shape = {'payload': min(p, 3), 'counts': counts, 'flags': flags, 'lead_question': lead, 'timing': 'fixed', 'v6_scope': 3}
+        obs.append(Obligation(f'survive[{name};payload={min(p, 3)};v6-source]', make(shape), 'survive', shape, timeout=280 if tier == 'quick' else 1500))
     obs.append(Obligation('oversize-guard', make_oversize({}), 'oversize', {}, timeout=120))
     obs.append(Obligation('echo-safety', make_echo({}), 'echo', {}, timeout=120))
     return obs
